@@ -54,9 +54,10 @@ func init() {
 			"until the 1st-3rd send of message k to a subscription begins (gochannel.send.locked), or until the source saw message k acked. Judged: the source-side clauses of class fanout, value integrity of everything received, and per (subscription, message of its topic): never more receipts than acked source copies + own Nacks (fanout-invented); " +
 			"a subscription that was subscribed before the message was handed to the FanOut and stays to the end receives exactly that many (fanout-missing, decided by quiescence). Non-trivial: a message was relayed, a subscription stayed, and a subscription left while a later one of its topic existed. " +
 			"The last 800 (quick) / 32000 (thorough) cases are the classes gosource/requeuer, gosource/fanin, gosource/forwarder (component rotates with the index): the relay consumes from a REAL source - a GoChannel (OutputChannelBuffer 0/1/4/64, Persistent 3 in 10, BlockPublishUntilSubscriberAck 4 in 10), or (4 in 10) a FanOut fed by such a GoChannel, started before or after the relay subscribed to it, with 0-2 further workers on the relay's topics that Nack 5 in 10 of their messages once or twice and (half of the workers) edit their copy before the Nack (new metadata keys, another UUID, another payload slice) - " +
-			"and relays to the scripted destination. 3-10 messages as in the component's serial class (Requeuer: every kind of existing counter, decoy keys, topic from const/metadata/uuid, delay 0..1ms, own/external router; FanIn: 1-3 source topics; Forwarder: stage 1 through forwarder.Publisher decorating the source, default/custom topic, 0-2 middlewares, own/external router, 0-2 malformed envelopes when AckWhenCannotUnwrap), published by 1-2 goroutines in Publish calls of 1-3 messages, part of the stream before the relay subscribed when the source is persistent; " +
-			"every message has a destination plan 'k refused calls (error, context.Canceled, panic), then accepted', k = 0 (3 in 10), 1 (3 in 10), 2, 3, 4, 5-7. The case runs until the process is quiescent. Judged: every destination call of a message (refused or accepted, whatever the number of redeliveries before it) carries the computed topic and exactly the value published to the source, the Requeuer's counter raised by exactly one (dest-topic/-uuid/-payload/-metadata, retries); " +
-			"a refused call is followed by another one - the real source gives a Nacked message again (no-redelivery-after-failure), none follows the accepted one (duplicate-relay), a message produces a call at all (not-relayed), nothing else reaches the destination (invented, non-envelope-forwarded); with a blocking GoChannel source no destination call of a message happens after the source's Publish for it returned (ack-before-accept), and that Publish returns (unsettled); " +
+			"and relays to the scripted destination. 3-10 messages as in the component's serial class (Requeuer: every kind of existing counter, decoy keys, topic from const/metadata/uuid, Delay 0 (3 in 8) or 1us/20us/300us/1ms/2ms - with a Delay the handler waits on the consumed message's context too -, own/external router; FanIn: 1-3 source topics; Forwarder: stage 1 through forwarder.Publisher decorating the source, default/custom topic, 0-2 pass-through middlewares plus (35 in 100) one middleware that honours the consumed message's context (returns its error when it has ended), own/external router, 0-2 malformed envelopes when AckWhenCannotUnwrap), published by 1-2 goroutines in Publish calls of 1-3 messages, part of the stream before the relay subscribed when the source is persistent; " +
+			"every message has a destination plan 'k refused calls (error, context.Canceled, panic), then accepted', k = 0 (3 in 10), 1 (3 in 10), 2, 3, 4, 5-7; in 3 of 10 cases the destination also honours the context of the message it is given (all relays hand on the consumed message's context): a call whose message comes with an ended context is refused with that context's error, outside the plan. " +
+			"A pass-through subscriber decorator between the source and the relay counts the copies of every message the relay consumed. The case runs until the process is quiescent; so that an endless Nack/redelivery loop becomes quiescent too, the decorator acknowledges further copies of a message itself once the relay has consumed 20 more copies of it than it made destination calls for it, and the context-honouring destination stops refusing a message after 20 refusals (both are reported as runaway-redelivery). Judged: every destination call of a message (refused or accepted, whatever the number of redeliveries before it) carries the computed topic and exactly the value published to the source, the Requeuer's counter raised by exactly one (dest-topic/-uuid/-payload/-metadata, retries); " +
+			"a refused call is followed by another one - the real source gives a Nacked message again (no-redelivery-after-failure), none follows the accepted one (duplicate-relay), a message produces a call at all (not-relayed), nothing else reaches the destination (invented, non-envelope-forwarded); with a blocking GoChannel source no destination call of a message happens after the source's Publish for it returned (ack-before-accept), and that Publish returns (unsettled); every copy the relay consumed before anybody stopped it produced a destination call (consumed-not-relayed), and a finite plan ends with the accepted call whatever the relay's handlers and the destination read from the message's context (runaway-redelivery); " +
 			"every further FanOut worker receives each message of its topic intact at every receipt, 1 + own Nacks times (dest-*, fanout-invented, fanout-missing). Non-trivial: a message came again after a refused destination call and was relayed. " +
 			"Router hook points get random yields. A case is non-trivial when at least one message was relayed and judged AND the case contained a fault or edge " +
 			"(injected destination failure, malformed envelope, existing retries counter, >=2 source topics, >=2 fan-out subscriptions, or an unusual message); a several-in-flight case is non-trivial when a message was relayed and at least one gate round held >=2 destination calls at once; distinct = distinct (component, configuration, message kinds, failure plans, observed settle sequence).",
@@ -73,6 +74,7 @@ func init() {
 			"churn/fanout: a removal held at the hook is in any case let go when the source has seen the chosen message settled, so no hold can outlast the stream",
 			"gosource/*: messages the relay would Nack for ever by design (no destination topic computable; a non-envelope with AckWhenCannotUnwrap=false) are not generated, a GoChannel redelivers them without end; identity travels in metadata key c17-id (for the Forwarder: of the enveloped message)",
 			"gosource/*: 'the relay Nacked the consumed copy' is observed as the redelivery GoChannel documents for a Nack, 'acknowledged' as the return of a Publish with BlockPublishUntilSubscriberAck (direct GoChannel source, messages published after the relay subscribed); the source Pub/Sub is part of the judged chain: a message must arrive as the statement says relative to what was published to the source",
+			"gosource/*: a message's context does not end while a consumed copy of it is being handled and nobody closes the subscription (message.Subscriber: the context is cancelled when the message is settled or the subscriber closes); the context-honouring Requeuer (Delay > 0), middleware and destination therefore never refuse on an unchanged chain; a destination call refused because of an ended context is not counted against the message's plan and is by itself no violation (the destination failed, the copy was Nacked) - only the loop that never ends is",
 			"several-in-flight FanOut cases judge ack-before-accept by counting (acked source copies of a topic < internal Publish calls entered for it), the hook only names the topic",
 		},
 		Run: run,
